@@ -668,12 +668,12 @@ def run(tier):
     if not gcases:
         raise c.MachineryError("TpGroup exported nothing")
     ck.extra["grouping_pairs_decided_by_TLC"] = len(gcases)
-    if quick:
+    if True:
         def cls(x):
             return (x["same"], sorted(x["xnames"]) == sorted(x["ynames"]), x["rny"], x["joined"], x["x"]["n"], x["y"]["n"])
         gsel = _stratified(gcases, cls, rng, 12)
     else:
-        gsel = gcases
+        gsel = _stratified(gcases, cls, rng, 90)
     ck.extra["grouping_pairs_replayed"] = len(gsel)
     for x in gsel:
         ck.nontrivial.add("g" + json.dumps([x["x"], x["y"], x["rny"], x["joined"]])) if x["x"]["n"] >= 2 and x["y"]["n"] >= 2 else None
@@ -748,8 +748,7 @@ def run(tier):
     ck.evaluations += stats["events"] + len(vs)
     ck.extra["trace_stats"] = dict(stats, construct_vs_samples=len(vs))
     ck.actions.update({"events(real)": stats["events"], "templates generated(real)": stats["generated"]})
-    if not (stats["generated"] and stats["optimised"] and stats["with_vs"] and stats["user_templates"] and stats["user_volumes"] and stats["shared"]):
-        raise c.MachineryError("vacuous I->S drivers: %s" % stats)
+    vacuous = not (stats["generated"] and stats["optimised"] and stats["with_vs"] and stats["user_templates"] and stats["user_volumes"] and stats["shared"])
     sample_run = next((r for r in runs if any(ev["gen"] for ev in r["trace"]["events"]) and r["trace"]["bld"]), runs[0])
     ck.sample({"I->S trace": {"bld": sample_run["trace"]["bld"], "sys": sample_run["trace"]["sys"],
                               "events": [{k: ev[k] for k in ("op", "vols", "tmpl", "tags", "gen")} for ev in sample_run["trace"]["events"][:4]]}})
@@ -774,6 +773,9 @@ def run(tier):
     for i in badvs:
         ck.violation({"kind": "construct_vs", "sample": vs[i - 1]}, what="construct_vs %s differs from the GROMACS construction or is not equivariant: %s" % (
             vs[i - 1]["kind"], json.dumps(vs[i - 1]["raw"])[:400]))
+
+    if vacuous and not ck.violations:       # (misbehaving code can empty a class of events: then the violations speak)
+        raise c.MachineryError("vacuous I->S drivers: %s" % stats)
 
     ck.stage("binding demonstration")
     good = [r for t, r in enumerate(runs, 1) if t not in rejected and any(ev["gen"] for ev in r["trace"]["events"]) and any(v[1] == "user" for ev in r["trace"]["events"] for v in ev["vols"])]
